@@ -27,9 +27,7 @@ use crate::AkdValue;
 use std::collections::HashMap;
 use std::collections::HashSet;
 use std::slice;
-#[cfg(feature = "runtime_metrics")]
 use std::sync::atomic::AtomicU64;
-#[cfg(feature = "runtime_metrics")]
 use std::sync::atomic::Ordering;
 use std::sync::Arc;
 use std::time::Duration;
@@ -55,6 +53,15 @@ const NUM_METRICS: usize = 10;
 #[cfg(test)]
 mod tests;
 
+/// A write to the data layer in progress (see `StorageManager::begin_write`)
+struct WriteInProgress(Arc<AtomicU64>);
+
+impl Drop for WriteInProgress {
+    fn drop(&mut self) {
+        self.0.fetch_add(1, Ordering::SeqCst);
+    }
+}
+
 /// Represents the manager of the storage mediums, including caching
 /// and transactional operations (creating the transaction, committing it, etc)
 pub struct StorageManager<Db: Database> {
@@ -62,6 +69,12 @@ pub struct StorageManager<Db: Database> {
     transaction: Transaction,
     /// The underlying database managed by this storage manager
     db: Arc<Db>,
+    /// Number of writes to the data layer which were started, and which have completed (including
+    /// their cache update). A record read from the data layer may only be put into the cache if no
+    /// write was in progress when the read started and none was started since, otherwise it may be
+    /// older than what a writer has cached in the meantime.
+    writes_started: Arc<AtomicU64>,
+    writes_completed: Arc<AtomicU64>,
     #[cfg(feature = "runtime_metrics")]
     metrics: [Arc<AtomicU64>; NUM_METRICS],
 }
@@ -72,6 +85,8 @@ impl<Db: Database> Clone for StorageManager<Db> {
             cache: self.cache.clone(),
             transaction: self.transaction.clone(),
             db: self.db.clone(),
+            writes_started: self.writes_started.clone(),
+            writes_completed: self.writes_completed.clone(),
             #[cfg(feature = "runtime_metrics")]
             metrics: self.metrics.clone(),
         }
@@ -88,6 +103,8 @@ impl<Db: Database> StorageManager<Db> {
             cache: None,
             transaction: Transaction::new(),
             db: Arc::new(db),
+            writes_started: Arc::new(AtomicU64::new(0)),
+            writes_completed: Arc::new(AtomicU64::new(0)),
             #[cfg(feature = "runtime_metrics")]
             metrics: [0; NUM_METRICS].map(|_| Arc::new(AtomicU64::new(0))),
         }
@@ -108,9 +125,34 @@ impl<Db: Database> StorageManager<Db> {
             )),
             transaction: Transaction::new(),
             db: Arc::new(db),
+            writes_started: Arc::new(AtomicU64::new(0)),
+            writes_completed: Arc::new(AtomicU64::new(0)),
             #[cfg(feature = "runtime_metrics")]
             metrics: [0; NUM_METRICS].map(|_| Arc::new(AtomicU64::new(0))),
         }
+    }
+
+    /// Marks a write to the data layer as started; it counts as completed when the returned guard is
+    /// dropped, i.e. after the cache has been updated (or the write has failed).
+    fn begin_write(&self) -> WriteInProgress {
+        self.writes_started.fetch_add(1, Ordering::SeqCst);
+        WriteInProgress(self.writes_completed.clone())
+    }
+
+    /// To be taken before reading from the data layer: None if a write is in progress.
+    fn read_ticket(&self) -> Option<u64> {
+        let started = self.writes_started.load(Ordering::SeqCst);
+        if started == self.writes_completed.load(Ordering::SeqCst) {
+            Some(started)
+        } else {
+            None
+        }
+    }
+
+    /// Whether a record read from the data layer under the given ticket may be put into the cache:
+    /// only if no write has been started since the ticket was taken.
+    fn may_cache_read(&self, ticket: Option<u64>) -> bool {
+        ticket == Some(self.writes_started.load(Ordering::SeqCst))
     }
 
     /// Retrieve a reference to the database implementation.
@@ -212,6 +254,7 @@ impl<Db: Database> StorageManager<Db> {
         }?;
 
         // Write to the database
+        let _write = self.begin_write();
         self.tic_toc(
             METRIC_WRITE_TIME,
             self.db
@@ -266,6 +309,7 @@ impl<Db: Database> StorageManager<Db> {
         }
 
         // write to the database
+        let _write = self.begin_write();
         self.tic_toc(METRIC_WRITE_TIME, self.db.set(record.clone()))
             .await?;
         self.increment_metric(METRIC_SET);
@@ -291,6 +335,7 @@ impl<Db: Database> StorageManager<Db> {
         }
 
         // Write to the database
+        let _write = self.begin_write();
         self.tic_toc(
             METRIC_WRITE_TIME,
             self.db.batch_set(records.clone(), DbSetState::General),
@@ -348,12 +393,17 @@ impl<Db: Database> StorageManager<Db> {
         // cache miss, read direct from db
         self.increment_metric(METRIC_GET);
 
+        let ticket = self.read_ticket();
         let record = self
             .tic_toc(METRIC_READ_TIME, self.db.get::<St>(id))
             .await?;
         if let Some(cache) = &self.cache {
-            // cache the result
-            cache.put(&record).await;
+            // cache the result, unless a write may have put a newer record into the cache meanwhile
+            cache
+                .batch_put_if(std::slice::from_ref(&record), || {
+                    self.may_cache_read(ticket)
+                })
+                .await;
         }
         Ok(record)
     }
@@ -398,13 +448,16 @@ impl<Db: Database> StorageManager<Db> {
         if !key_set.is_empty() {
             // these are items to be retrieved from the backing database (not in pending transaction or in the object cache)
             let keys = key_set.into_iter().collect::<Vec<_>>();
+            let ticket = self.read_ticket();
             let mut results = self
                 .tic_toc(METRIC_READ_TIME, self.db.batch_get::<St>(&keys))
                 .await?;
 
-            // cache the db returned results
+            // cache the db returned results, unless a write may have put newer records into the cache meanwhile
             if let Some(cache) = &self.cache {
-                cache.batch_put(&results).await;
+                cache
+                    .batch_put_if(&results, || self.may_cache_read(ticket))
+                    .await;
             }
 
             records.append(&mut results);
@@ -454,6 +507,7 @@ impl<Db: Database> StorageManager<Db> {
         username: &AkdLabel,
         flag: ValueStateRetrievalFlag,
     ) -> Result<ValueState, StorageError> {
+        let ticket = self.read_ticket();
         let maybe_db_state = match self
             .tic_toc(METRIC_READ_TIME, self.db.get_user_state(username, flag))
             .await
@@ -485,9 +539,13 @@ impl<Db: Database> StorageManager<Db> {
         }
 
         if let Some(state) = maybe_db_state {
-            // cache the item for future access
+            // cache the item for future access, unless a write may have cached a newer one meanwhile
             if let Some(cache) = &self.cache {
-                cache.put(&DbRecord::ValueState(state.clone())).await;
+                cache
+                    .batch_put_if(&[DbRecord::ValueState(state.clone())], || {
+                        self.may_cache_read(ticket)
+                    })
+                    .await;
             }
 
             Ok(state)
